@@ -413,6 +413,103 @@ func (c *c15Rig) attachDetach() {
 	c.verifyLedger("attach/detach")
 }
 
+// drainOrder attaches several funded pools to one account, detaches one of
+// them (any position) and then pays for verifications beyond what a single
+// pool holds: the remaining pools are drawn on in the order they were attached.
+func (c *c15Rig) drainOrder() {
+	e := c.e
+	e.Step()
+	ctx := context.Background()
+	ak, acct := c.newAccount()
+	c.m.acct[acct] = types.ZeroCurrency
+	cost := c.prices.RPCVerifySectorCost().RenterCost()
+	n := e.Range(2, 4)
+	var pks []types.PrivateKey
+	var ps []proto4.Account
+	for i := 0; i < n; i++ {
+		pk, p := c.newAccount()
+		c.m.pool[p] = types.ZeroCurrency
+		// between half a verification and two and a half
+		c.credit("replenish-pools", []proto4.Account{p}, nil, cost.Mul64(uint64(e.Range(2, 10))).Div64(4))
+		pks, ps = append(pks, pk), append(ps, p)
+	}
+	var aerr error
+	if e.Chance(1, 2) {
+		// one request
+		var in []rhp4.PoolAttachInput
+		for i := range ps {
+			in = append(in, rhp4.PoolAttachInput{Account: acct, PoolKey: pks[i]})
+		}
+		e.Guard("C15.panic", "RPCAttachPools", func() { aerr = rhp4.RPCAttachPools(ctx, c.tr, in, time.Minute) })
+	} else {
+		for i := range ps {
+			e.Guard("C15.panic", "RPCAttachPools", func() {
+				if err := rhp4.RPCAttachPools(ctx, c.tr, []rhp4.PoolAttachInput{{Account: acct, PoolKey: pks[i]}}, time.Minute); err != nil {
+					aerr = err
+				}
+			})
+		}
+	}
+	if aerr != nil {
+		e.Violationf("C15.honest-rpc", "attach-several", "honest RPCAttachPools of %d pools failed: %v", n, aerr)
+		return
+	}
+	c.m.attached[acct] = append([]proto4.Account(nil), ps...)
+	gone := -1
+	if e.Chance(3, 4) {
+		gone = e.Intn(n)
+		signer := ak
+		if e.Chance(1, 2) {
+			signer = pks[gone]
+		}
+		var derr error
+		e.Guard("C15.panic", "RPCDetachPools", func() {
+			derr = rhp4.RPCDetachPools(ctx, c.tr, []rhp4.PoolDetachInput{{Account: acct, Pool: ps[gone], Signer: signer}}, time.Minute)
+		})
+		if derr != nil {
+			e.Violationf("C15.detach-authorisation", "one-of-several", "detaching pool %d of %d failed: %v", gone, n, derr)
+			return
+		}
+		var rest []proto4.Account
+		for i, p := range ps {
+			if i != gone {
+				rest = append(rest, p)
+			}
+		}
+		c.m.attached[acct] = rest
+		e.Fault("detach-one-of-several")
+	}
+	waitQuiet()
+	c.verifyLedger("attach several / detach one")
+	// verifications until the funds run out (and one more)
+	for k := 0; k < 8; k++ {
+		canPay := c.m.drawable(acct).Cmp(cost) >= 0
+		n0 := len(c.contractor.calls)
+		var verr error
+		e.Guard("C15.panic", "RPCVerifySector", func() { _, verr = rhp4.RPCVerifySector(ctx, c.tr, c.prices, c.token(ak), c.stored[0]) })
+		waitQuiet()
+		debited := false
+		for _, call := range c.contractor.calls[n0:] {
+			if call.method == "DebitAccount" && call.err == nil {
+				debited = true
+			}
+		}
+		c.seenCall = len(c.contractor.calls)
+		if debited != canPay || (verr == nil) != canPay {
+			e.Violationf("C15.insufficient-funds", "verify:several-pools", "verify %d costing %v with %d attached pools (detached: %d), drawable %v: err=%v debited=%v", k, cost, len(c.m.attached[acct]), gone, c.m.drawable(acct), verr, debited)
+		}
+		if debited {
+			c.m.debit(acct, cost)
+		}
+		c.verifyLedger(fmt.Sprintf("verify %d drawing on %d pools attached in order (detached: %d of %d)", k, len(c.m.attached[acct]), gone, n))
+		if !canPay {
+			break
+		}
+	}
+	e.Shape("drain-order", fmt.Sprint(n), fmt.Sprint(gone))
+	e.Nontrivial = true
+}
+
 func runC15(e *sim.Env) {
 	base := newC08Rig(e, "C15")
 	c := &c15Rig{c08Rig: base, keys: map[proto4.Account]types.PrivateKey{}}
@@ -434,7 +531,9 @@ func runC15(e *sim.Env) {
 	}
 	steps := e.Range(8, 24)
 	for i := 0; i < steps; i++ {
-		switch e.Pick(2, 3, 2, 3, 3, 2, 2) {
+		switch e.Pick(2, 3, 2, 3, 3, 2, 2, 1) {
+		case 7:
+			c.drainOrder()
 		case 0:
 			var as []proto4.Account
 			var amts []types.Currency
@@ -495,7 +594,7 @@ var _ = sim.NewEnv
 func init() {
 	register(&Prop{
 		ID: "C15", Run: runC15, Quick: 900, Thorough: 8000, Level: "exploration",
-		Rule:        "one run = a formed contract and 8-24 drawn operations over several accounts and pools: fund, replenish accounts / pools (lists with repeated entries and entries already above the target), attach (valid, signed by the account key, by a stranger, expired, flipped signature) and detach (account key, pool key, stranger), and read / write / verify with the drawable funds (own balance, optionally split with an attached pool, which in half of those cases is attached a second time) at cost-1H, cost and cost+1H and with sectors the host does not store; every Credit*/DebitAccount call and every sector-store call is recorded with the global event number; oracles: credits equal the value the accompanying renter-signed revision moves, debits equal the priced cost (core's functions) and precede the sector access, no debit without service and no service without debit, insufficient funds deliver nothing / store nothing / debit nothing, replenish ends at max(before, target), attach/detach only with the right signature before expiry, and after every step every account and pool balance the host reports equals the model ledger; distinct = abstract trace; all runs non-trivial once a service RPC ran",
+		Rule:        "one run = a formed contract and 8-24 drawn operations over several accounts and pools: fund, replenish accounts / pools (lists with repeated entries and entries already above the target), attach (valid, signed by the account key, by a stranger, expired, flipped signature) and detach (account key, pool key, stranger), several funded pools attached to one account (one request or several), one of them detached again at a drawn position, then verifications until the funds run out, and read / write / verify with the drawable funds (own balance, optionally split with an attached pool, which in half of those cases is attached a second time) at cost-1H, cost and cost+1H and with sectors the host does not store; every Credit*/DebitAccount call and every sector-store call is recorded with the global event number; oracles: credits equal the value the accompanying renter-signed revision moves, debits equal the priced cost (core's functions) and precede the sector access, no debit without service and no service without debit, insufficient funds deliver nothing / store nothing / debit nothing, replenish ends at max(before, target), attach/detach only with the right signature before expiry, and after every step every account and pool balance the host reports equals the model ledger; distinct = abstract trace; all runs non-trivial once a service RPC ran",
 		Real:        []string{"rhp4.Server", "rhp4 RPC* client functions", "testutil.EphemeralContractor (accounts, pools, attachments) / EphemeralSectorStore behind recording wrappers", "wallets, chain.Manager"},
 		Stub:        []string{"transport: simrhp in-memory streams with typed relay", "disk: simdisk.DB"},
 		Assumptions: []string{"no fault is injected into the sector store: a host-side disk error after a legitimate debit is outside the statement"},
